@@ -119,6 +119,122 @@ theorem holds_prefix (deprecated : Bool) (epoch : Time) (V P : Dur) (h : P ≤ V
           simp only [prefixLifetimes, Bool.not_true, Bool.false_eq_true, if_false]
           exact ⟨antitone epoch V t t' (by omega), antitone epoch P t t' (by omega)⟩
 
+/-! ### a clock that moves while one RA is built (span observations) -/
+
+/-- For a single reading the span oracle is the point oracle. -/
+theorem span_point_prefix (deprecated : Bool) (epoch : Time) (V P : Dur) (t : Time) (v p : Dur) :
+    Spec.C16.prefixSpanOk deprecated epoch V P (t, t, v, p) = Spec.C16.prefixObsOk deprecated epoch V P (t, v, p) := by
+  unfold Spec.C16.prefixSpanOk Spec.C16.prefixObsOk Spec.C16.remaining
+  cases deprecated
+  · simp
+  · rw [Bool.eq_iff_iff]
+    simp only [if_true, Bool.and_eq_true, beq_iff_eq, decide_eq_true_eq, Bool.or_eq_true]
+    omega
+
+theorem span_point_route (deprecated : Bool) (epoch : Time) (L : Dur) (t : Time) (l : Dur) :
+    Spec.C16.routeSpanOk deprecated epoch L (t, t, l) = Spec.C16.routeObsOk deprecated epoch L (t, l) := by
+  unfold Spec.C16.routeSpanOk Spec.C16.routeObsOk Spec.C16.remaining
+  cases deprecated
+  · simp
+  · rw [Bool.eq_iff_iff]
+    simp only [if_true, Bool.and_eq_true, beq_iff_eq, decide_eq_true_eq, Bool.or_eq_true]
+    omega
+
+/-- The span oracle asks no more than the property: any implementation that derives the valid
+    lifetime from a reading `a` and the preferred lifetime from a reading `b` no earlier than
+    `a`, both within the span, is accepted (reading the clock twice is not by itself a
+    violation). -/
+theorem span_accepts_ordered_reads (epoch : Time) (V P : Dur) (lo hi a b : Time)
+    (h : P ≤ V) (h1 : lo ≤ a) (h2 : a ≤ b) (h3 : b ≤ hi) :
+    Spec.C16.prefixSpanOk true epoch V P (lo, hi, lifetimeAt epoch V a, lifetimeAt epoch P b) = true := by
+  unfold Spec.C16.prefixSpanOk Spec.C16.remaining
+  simp only [if_true, eq_clamped_remaining, Bool.and_eq_true, decide_eq_true_eq]
+  omega
+
+/-- …and it rejects the preferred lifetime taken from an earlier reading than the valid lifetime
+    when that makes preferred exceed valid (5 s / 5 s, readings 0 and 400 ms). -/
+example : Spec.C16.prefixSpanOk true 0 (5 * second) (5 * second)
+    (0, 400 * ms, lifetimeAt 0 (5 * second) (400 * ms), lifetimeAt 0 (5 * second) 0) = false := by decide
+
+theorem antitone_model_prefix (epoch : Time) (V P : Dur) (ts : List Time) :
+    Spec.C16.antitone (ts.map fun t => (t, (prefixLifetimes true epoch V P t).1, (prefixLifetimes true epoch V P t).2)) = true := by
+  induction ts with
+  | nil => rfl
+  | cons t ts ih =>
+    cases ts with
+    | nil => rfl
+    | cons t' ts' =>
+      simp only [List.map, Spec.C16.antitone, Bool.and_eq_true, Bool.or_eq_true, decide_eq_true_eq]
+      refine ⟨?_, by simpa using ih⟩
+      by_cases hlt : t' < t
+      · exact Or.inl hlt
+      · right
+        simp only [prefixLifetimes, Bool.not_true, Bool.false_eq_true, if_false]
+        exact ⟨antitone epoch V t t' (by omega), antitone epoch P t t' (by omega)⟩
+
+/-- The model (one reading per RA, the first of the span) satisfies the span oracle for every
+    sequence of spans of any length. -/
+theorem holds_prefix_span (deprecated : Bool) (epoch : Time) (V P : Dur) (h : P ≤ V)
+    (spans : List (Time × Time)) (hs : ∀ s ∈ spans, s.1 ≤ s.2) :
+    Spec.C16.holdsPrefixSpan deprecated epoch V P
+      (spans.map fun s => (s.1, s.2, (prefixLifetimes deprecated epoch V P s.1).1,
+        (prefixLifetimes deprecated epoch V P s.1).2)) = true := by
+  unfold Spec.C16.holdsPrefixSpan
+  simp only [Bool.and_eq_true, List.all_map, List.all_eq_true, Function.comp]
+  refine ⟨fun s hmem => ?_, ?_⟩
+  · have hle := hs s hmem
+    cases deprecated
+    · simp [Spec.C16.prefixSpanOk, prefixLifetimes]
+    · have := span_accepts_ordered_reads epoch V P s.1 s.2 s.1 s.1 h (by omega) (by omega) hle
+      simpa [prefixLifetimes] using this
+  · cases deprecated
+    · simp
+    · simp only [Bool.not_true, Bool.false_or, List.map_map]
+      have := antitone_model_prefix epoch V P (spans.map fun s => s.1)
+      rw [List.map_map] at this
+      exact this
+
+theorem route_span_accepts_any_read (epoch : Time) (L : Dur) (lo hi a : Time) (h1 : lo ≤ a) (h2 : a ≤ hi) :
+    Spec.C16.routeSpanOk true epoch L (lo, hi, lifetimeAt epoch L a) = true := by
+  unfold Spec.C16.routeSpanOk Spec.C16.remaining
+  simp only [if_true, eq_clamped_remaining, Bool.and_eq_true, decide_eq_true_eq]
+  omega
+
+theorem antitone_model_route (epoch : Time) (L : Dur) (ts : List Time) :
+    Spec.C16.antitoneR (ts.map fun t => (t, routeLifetime true epoch L t)) = true := by
+  induction ts with
+  | nil => rfl
+  | cons t ts ih =>
+    cases ts with
+    | nil => rfl
+    | cons t' ts' =>
+      simp only [List.map, Spec.C16.antitoneR, Bool.and_eq_true, Bool.or_eq_true, decide_eq_true_eq]
+      refine ⟨?_, by simpa using ih⟩
+      by_cases hlt : t' < t
+      · exact Or.inl hlt
+      · right
+        simp only [routeLifetime, Bool.not_true, Bool.false_eq_true, if_false]
+        exact antitone epoch L t t' (by omega)
+
+theorem holds_route_span (deprecated : Bool) (epoch : Time) (L : Dur)
+    (spans : List (Time × Time)) (hs : ∀ s ∈ spans, s.1 ≤ s.2) :
+    Spec.C16.holdsRouteSpan deprecated epoch L
+      (spans.map fun s => (s.1, s.2, routeLifetime deprecated epoch L s.1)) = true := by
+  unfold Spec.C16.holdsRouteSpan
+  simp only [Bool.and_eq_true, List.all_map, List.all_eq_true, Function.comp]
+  refine ⟨fun s hmem => ?_, ?_⟩
+  · have hle := hs s hmem
+    cases deprecated
+    · simp [Spec.C16.routeSpanOk, routeLifetime]
+    · have := route_span_accepts_any_read epoch L s.1 s.2 s.1 (by omega) hle
+      simpa [routeLifetime] using this
+  · cases deprecated
+    · simp
+    · simp only [Bool.not_true, Bool.false_or, List.map_map]
+      have := antitone_model_route epoch L (spans.map fun s => s.1)
+      rw [List.map_map] at this
+      exact this
+
 /-- Non-vacuity: a 10 s/5 s deprecated prefix observed just before, at and after each deadline. -/
 example : Spec.C16.holdsPrefix true 100 10 5
     ([99, 104, 105, 106, 109, 110, 111].map fun t =>
